@@ -121,6 +121,7 @@ structure PlaneReq (K Rr : Type) where
   p : PlaneM K Rr
   px : Option (Int × Int)
   pupil : Bool
+  image : Bool
   fl : Float
 
 def planeOf (N : Num K Rr) [Inhabited K] [Inhabited Rr] (j : Json) : R (PlaneReq K Rr) := do
@@ -130,7 +131,7 @@ def planeOf (N : Num K Rr) [Inhabited K] [Inhabited Rr] (j : Json) : R (PlaneReq
   let px ← pairOpt j "px"
   let kind ← getStr j "kind"
   let fl ← match optVal j "fl" with | some v => floatOfJson v | none => pure 0.0
-  pure { p := { amp := amp, opd := opd, mask := mask }, px := px, pupil := kind == "pupil", fl := fl }
+  pure { p := { amp := amp, opd := opd, mask := mask }, px := px, pupil := kind == "pupil", image := kind == "image", fl := fl }
 
 /-- the initial wavefront and the chain of planes of a request; `Except.error` carries the exception class -/
 def runChain (N : Num K Rr) [Inhabited K] [Inhabited Rr] [Zero K] [Mul K] (j : Json) : R (Except String (Wf K Float)) := do
@@ -154,7 +155,9 @@ def runChain (N : Num K Rr) [Inhabited K] [Inhabited Rr] [Zero K] [Mul K] (j : J
       match planeOf N pj with
       | .error e => if e == "IndexError" then res := .error e else throw e
       | .ok pr =>
-        res := if pr.pupil then pupilMultiplyW N.ph pr.p pr.px pr.fl cur else planeMultiplyW N.ph pr.p pr.px cur
+        res := if pr.pupil then pupilMultiplyW N.ph pr.p pr.px pr.fl cur
+               else if pr.image then imageMultiplyW N.ph pr.p pr.px cur
+               else planeMultiplyW N.ph pr.p pr.px cur
   pure res
 
 def wfJ (N : Num K Rr) [Add K] [Mul K] [Zero K] [Inhabited K] (j : Json) (w : Wf K Float) : R Json := do
